@@ -48,6 +48,34 @@ func runC08(r *vk.Run) {
 			return
 		}
 		c.Count("limit_probe", 1)
+		// and on more records than any default page or cap: every limit means what it says
+		n := 6000 + c.Rng.Intn(500)
+		recs := make([]Rec, 0, n)
+		for i := 0; i < n; i++ {
+			recs = append(recs, Rec{TS: logT0 + int64(i+1)*1e6, Line: fmt.Sprintf("n=%d", i), Labels: map[string]string{"app": "x"}})
+		}
+		for _, L := range []int{-1, 0, 1, 100, 101, 1000, 5000, 5001, n - 1, n, n + 1, 10 * n} {
+			res, err := evalQuery(&MemQuerier{Recs: recs, ErrAfter: -1}, `{app="x"} | drop msg`, EvalP{Start: logT0, End: logT0 + int64(n+5)*1e6, Step: time.Second, Limit: L})
+			c.Eval(1)
+			want := n
+			if L > 0 && L < n {
+				want = L
+			}
+			got, maxTS := 0, int64(0)
+			for _, st := range res.Streams {
+				for _, e := range st.Entries {
+					got++
+					if e.TS > maxTS {
+						maxTS = e.TS
+					}
+				}
+			}
+			if err != nil || got != want || maxTS != logT0+int64(want)*1e6 {
+				c.Fail("", fmt.Sprintf("%d matching records, limit %d: %d entries returned (newest %d), expected the first %d (err=%v)", n, L, got, maxTS-logT0, want, err), map[string]any{"records": n, "limit": L})
+				return
+			}
+			c.Count("bulk_limit_checks", 1)
+		}
 	})
 	formats := []string{"json", "logfmt", "access", "packed", "plain", "mixed"}
 	r.Phase("partition", r.N(1500, 400000), func(c *vk.Case) {
